@@ -1,4 +1,5 @@
 import Py4hwV.Net.Sim
+import Py4hwV.Net.PrepLemma
 import Py4hwV.Core.Bits
 /-
   C06 — Wire values always fit their declared width.
@@ -15,9 +16,9 @@ theorem gen_wire_put_eq (w : Nat) (v : Int) : Gen.Wire.put (w : Int) v = ((Bits.
   simp only [Gen.Wire.put, Id.run, pure, Py.shlT, Int.toNat_natCast]
   rw [put_eq_land]
 
-theorem gen_wire_prepare_eq (w : Nat) (v : Int) : Gen.Wire.prepare (w : Int) v = ((Bits.put w v : Nat) : Int) := by
-  simp only [Gen.Wire.prepare, Id.run, pure, Py.shlT, Int.toNat_natCast]
-  rw [put_eq_land]
+/-- for BOTH values of the "already prepared" flag (code placed in that branch of prepare is part of the statement) -/
+theorem gen_wire_prepare_eq (w : Nat) (al v : Int) : Gen.Wire.prepare (w : Int) al v = ((Bits.put w v : Nat) : Int) :=
+  Net.gen_wire_prepare_eq w al v
 
 theorem gen_bidir_put_eq (w : Nat) (v : Int) : Gen.BidirWire.put (w : Int) v = ((Bits.put w v : Nat) : Int) := by
   simp only [Gen.BidirWire.put, Id.run, pure, Py.shlT, Int.toNat_natCast]
@@ -32,7 +33,7 @@ theorem gen_bidir_prepare_eq (w : Nat) (v : Int) :
 theorem gen_wire_put_lt (w : Nat) (v : Int) : (Gen.Wire.put (w : Int) v).toNat < 2 ^ w := by
   rw [gen_wire_put_eq]; simpa using put_lt w v
 
-theorem gen_wire_prepare_lt (w : Nat) (v : Int) : (Gen.Wire.prepare (w : Int) v).toNat < 2 ^ w := by
+theorem gen_wire_prepare_lt (w : Nat) (al v : Int) : (Gen.Wire.prepare (w : Int) al v).toNat < 2 ^ w := by
   rw [gen_wire_prepare_eq]; simpa using put_lt w v
 
 theorem gen_wire_put_nonneg (w : Nat) (v : Int) : 0 ≤ Gen.Wire.put (w : Int) v := by
@@ -57,7 +58,7 @@ theorem inv_prepW (d : Design σ) (s : State σ) (wv : Nat × Int) (h : Inv d s)
   · exact h.1
   · intro w hw
     by_cases e : w = wv.1
-    · subst e; simp [prepW]; exact gen_wire_prepare_lt _ _
+    · subst e; simp [prepW, prepVal]; exact gen_wire_prepare_lt _ _ _
     · have : w ∈ s.prepared := by
         simp [prepW] at hw
         rcases hw with hw | hw
